@@ -116,7 +116,7 @@ CHECKS = {
         rule="fault = truncation at a cut point: for every generated encoding of at most 4 KiB every strict prefix is decoded "
              "(longer ones: first and last 256 cuts plus 256 random); each must give Err — Ok or a panic is a violation; "
              "distinct = distinct (type, prefix) pairs",
-        floors={"any": {"prefixes_of_skipping_codecs_rejected": 40, "rejected": 100000, "rejected_unknown_length_form": 10000, "cross_version_rejected": 10000, "big_values_ok": 50}},
+        floors={"any": {"prefixes_of_skipping_codecs_rejected": 40, "rejected": 100000, "rejected_unknown_length_form": 10000, "cross_version_rejected": 10000, "big_values_ok": 50, "rejected_newer_tuples": 10000}},
     ),
     "C09": dict(
         claim="Held on N observed executions: flat streams of deduplicated / plain string writes (all patterns up to length 4, 5 in the thorough tier, over a 7-string alphabet; random longer ones) are written by the library and compared byte for byte with a reference string table (first occurrence = plain string, repeat = zig-zag varint of minus its id, ids from 1 in first-occurrence order), read back, and probed with ids that were never introduced; plus every subject type containing deduplicated strings (tuples, sequences, v0 and evolved records with and without names in the header). One stream with 70 000 distinct ids (140 000 in the thorough tier) exercises two- and three-byte back-references.",
